@@ -30,7 +30,7 @@ inductive Step where
   /-- identity indiscernability on branch `b`: identity node `i`, predication node `p`, replace `old` by `new` -/
   | ident (b i p : Nat)
   /-- a limit helper adds a quit flag to branch `b` -/
-  | quit (b : Nat) (name : String)
+  | quit (b : Nat) (name : String) (tick : Option Nat)
   deriving Repr, Inhabited
 
 /-- instantiate one template branch for target node `(s, d, w)`; `l` is what `lhs` stands for,
@@ -76,13 +76,13 @@ def witnessGroups (b : Branch) (whole l0 : Sent) (w : Option Nat) (c : Option (N
       match c with
       | some (ci, cs) =>
           if b.consts.contains (ci, cs) || wo.isSome then none
-          else mapOpt (instAdds whole (whole.unquantify ci cs) none whole.qraw whole.qvar w none) r.branches
+          else mapOpt (instAdds whole (whole.instC ci cs) none whole.qraw whole.qvar w none) r.branches
       | none => none
   | .eachConst =>
       match c with
       | some (ci, cs) =>
           if wo.isSome then none
-          else mapOpt (instAdds whole (whole.unquantify ci cs) none whole.qraw whole.qvar w none) r.branches
+          else mapOpt (instAdds whole (whole.instC ci cs) none whole.qraw whole.qvar w none) r.branches
       | none => none
   | .newWorld =>
       match wo, w with
@@ -151,8 +151,8 @@ def identAdd (ni np : Node) : Option Node :=
   match ni, np with
   | .sent (.pred q [pa, pb]) none w, .sent (.pred pr ps) none w' =>
       if q != Pred.identity || pa == pb || w != w' then none
-      else if ps.contains pa then some (.sent (.pred pr (ps.map (Param.subst pb pa))) none w)
-      else if ps.contains pb then some (.sent (.pred pr (ps.map (Param.subst pa pb))) none w)
+      else if ps.contains pa then some (.sent (.pred pr (ps.map (Param.psubst pb pa))) none w)
+      else if ps.contains pb then some (.sent (.pred pr (ps.map (Param.psubst pa pb))) none w)
       else none
   | _, _ => none
 
@@ -187,8 +187,8 @@ def applyAt (L : LogicData) (t : Tableau) (bi : Nat) (b : Branch) : Step → Opt
           | some nd => some (t.set bi (b.extend [nd] none))
           | none => none
       | _, _ => none
-  | .quit _ name =>
-      if name == "closure" then none else some (t.set bi (b.extend [.flag name] none))
+  | .quit _ name tick =>
+      if name == "closure" then none else some (t.set bi (b.extend [.flag name] tick))
 
 def Step.branch : Step → Nat
   | .rule b .. => b | .close b .. => b | .closeIdent b .. => b | .frame b .. => b | .ident b .. => b | .quit b .. => b
